@@ -15,13 +15,17 @@ CONSTANTS GenRole,    \* "node" | "client"
           MaxSteps,   \* free steps; afterwards only finishing / tear-down steps
           DrainMax,   \* bound of the tear-down phase
           DrawStreams, DrawSpaces,  \* sequences (repetition = weight) the simulation draws the stream / space from
+          Prelude,    \* "none" | "holder": start from the state in which stream 1 is open and holds pattern <<"a">> of space "X"
+                      \* (the harness brings the engine there before the first step) - gives refcounts something to lose
+          GenStreams, \* streams that act in the generated behaviours
           UseCls      \* TRUE: pick the action class first (keeps Publish from crowding out the rest in simulation)
 
-VARIABLES hist,   \* the steps taken so far
+VARIABLES init0,  \* projection of the initial state (constant)
+          hist,   \* the steps taken so far
           sel,    \* simulation only: the class / stream / space drawn for the next step ("choose" = draw now)
           done    \* TRUE in the single successor of a terminal state: the behaviour is emitted there, so that
                   \* -simulate writes one file per trace (invariants are evaluated on every generated successor)
-gvars == <<vars, hist, sel, done>>
+gvars == <<vars, init0, hist, sel, done>>
 
 ASSUME EmitReset
 
@@ -42,29 +46,49 @@ Classes == IF GenRole = "node" THEN {"stream", "sub", "subgood", "subgood#2", "f
 Choose == [c |-> "choose", s |-> 0, sp |-> ""]
 AnySel == [c |-> "any", s |-> 0, sp |-> ""]
 InCls(c) == ~UseCls \/ sel.c \in {c, c \o "#2", c \o "#3"}
-SelS(s)  == ~UseCls \/ sel.s = s
+SelS(s)  == s \in GenStreams /\ (~UseCls \/ sel.s = s)
 SelSp(sp) == ~UseCls \/ sel.sp = sp
 Free == Len(hist) < MaxSteps
 
-GInit == Init /\ hist = <<>> /\ done = FALSE /\ sel = (IF UseCls THEN Choose ELSE AnySel)
+HolderTag == <<"X", <<"a">>>>
+InitHolder ==
+    /\ st = [s \in Sids |-> IF s = 1 THEN "open" ELSE "new"] /\ tags = [s \in Sids |-> IF s = 1 THEN {HolderTag} ELSE {}]
+    /\ hasRec = [s \in Sids |-> s = 1] /\ recSp = [s \in Sids |-> IF s = 1 THEN {"X"} ELSE {}]
+    /\ recPat = [s \in Sids |-> IF s = 1 THEN {HolderTag} ELSE {}]
+    /\ total = [s \in Sids |-> IF s = 1 THEN 1 ELSE 0] /\ remoteDom = {"X"}
+    /\ refs = [sp \in GoodSpaces |-> [p \in PatU |-> IF sp = "X" /\ p = <<"a">> THEN 1 ELSE 0]]
+    /\ member = InitMember
+    /\ pend = NoPend /\ busy = [s \in Sids |-> "idle"] /\ pendU = [s \in Sids |-> {}]
+    /\ chk = [s \in Sids |-> NoChk] /\ rchk = [s \in Sids |-> NoRchk] /\ evicted = {}
+    /\ late = [s \in Sids |-> FALSE]
+    /\ tokens = [p \in Peers |-> Burst]
+    /\ want = [s \in Sids |-> IF s = 1 THEN {HolderTag} ELSE {}]
+    /\ lpats = {} /\ ring = <<>> /\ hid = {}
+    /\ out = NoOut
+
+GInit == (IF Prelude = "holder" THEN InitHolder ELSE Init)
+         /\ init0 = Proj /\ hist = <<>> /\ done = FALSE /\ sel = (IF UseCls THEN Choose ELSE AnySel)
 
 UnsubPending == \E s \in Sids : busy[s] = "unsub"
 AllWithdrawn == \A s \in Sids : want[s] = {}
-Terminal == /\ Len(hist) >= MaxSteps
-            /\ \/ (GenRole = "node" /\ Quiescent /\ AllWithdrawn)
-               \/ GenRole = "client"
-               \/ Len(hist) >= MaxSteps + DrainMax
+ActorsDone == ~UseCls /\ GenRole = "node" /\ Quiescent /\ \A s \in GenStreams : st[s] = "gone"
+Terminal == \/ /\ Len(hist) >= MaxSteps
+               /\ \/ (GenRole = "node" /\ Quiescent /\ AllWithdrawn)
+                  \/ GenRole = "client"
+                  \/ Len(hist) >= MaxSteps + DrainMax
+            \/ ActorsDone     \* exhaustive generation: every acting stream is closed - the history is complete
 
 NodeG ==
-    \/ InCls("stream") /\ Free /\ On("OpenStream") /\ \E s \in Sids : OpenStream(s) /\ Rec([act |-> "OpenStream", s |-> s])
+    \/ InCls("stream") /\ Free /\ On("OpenStream") /\ \E s \in GenStreams : OpenStream(s) /\ Rec([act |-> "OpenStream", s |-> s])
     \/ InCls("stream") /\ On("RemoveStream") /\ \E s \in Sids : SelS(s) /\ (Free \/ want[s] # {} \/ hasRec[s]) /\ RemoveStream(s) /\ Rec([act |-> "RemoveStream", s |-> s])
-    \/ (InCls("stream") \/ InCls("finish")) /\ On("OnStreamClose") /\ \E s \in Sids : OnStreamClose(s) /\ Rec([act |-> "OnStreamClose", s |-> s])
+    \/ (InCls("stream") \/ InCls("finish")) /\ On("OnStreamClose") /\ \E s \in GenStreams : OnStreamClose(s) /\ Rec([act |-> "OnStreamClose", s |-> s])
     \/ InCls("sub") /\ Free /\ On("SubReject") /\ \E s \in Sids, sp \in Spaces, f \in SubFrames :
             SelS(s) /\ SelSp(sp) /\ SubReject(s, sp, f) /\ Rec([act |-> "SubReject", s |-> s, sp |-> sp, f |-> f])
     \/ (InCls("sub") \/ InCls("subgood")) /\ Free /\ On("SubCheck") /\ \E s \in Sids, sp \in Spaces, f \in SubFrames :
             SelS(s) /\ SelSp(sp) /\ SubCheck(s, sp, f) /\ Rec([act |-> "SubCheck", s |-> s, sp |-> sp, f |-> f])
     \/ (InCls("sub") \/ InCls("subgood") \/ InCls("finish")) /\ On("Sub1") /\ \E s \in Sids : Sub1(s) /\ Rec([act |-> "Sub1", s |-> s])
     \/ (InCls("sub") \/ InCls("subgood") \/ InCls("finish")) /\ On("Sub2") /\ Sub2 /\ Rec([act |-> "Sub2"])
+    \/ (InCls("sub") \/ InCls("subgood") \/ InCls("finish")) /\ On("Sub3") /\ \E s \in Sids : Sub3(s) /\ Rec([act |-> "Sub3", s |-> s])
     \/ InCls("unsub") /\ On("Unsub1") /\ \E s \in Sids, sp \in GoodSpaces, P \in UnsubFrames :
             /\ SelS(s) /\ SelSp(sp)
             /\ Free \/ (P = {} /\ OfSpace(want[s], sp) # {})
@@ -109,8 +133,8 @@ Draw == IF sel.c = "choose" THEN \E c \in Classes : sel' = [sel EXCEPT !.c = c]
 
 GNext ==
     /\ ~done
-    /\ IF Terminal THEN done' = TRUE /\ UNCHANGED <<vars, hist, sel>>
-       ELSE /\ done' = FALSE
+    /\ IF Terminal THEN done' = TRUE /\ UNCHANGED <<vars, init0, hist, sel>>
+       ELSE /\ done' = FALSE /\ init0' = init0
             /\ IF UnsubPending
                  THEN (\E s \in Sids : Unsub2(s) /\ Rec([act |-> "Unsub2", s |-> s])) /\ sel' = sel
                ELSE IF ~UseCls
@@ -124,7 +148,8 @@ Behaviour == [cfg |-> [role |-> GenRole, nstreams |-> NStreams, streamAcct |-> S
                        nodePeers |-> NodePeers, accounts |-> Accounts, badSpaces |-> BadSpaces, notResp |-> NotResp,
                        initMember |-> InitMember, maxPerSpace |-> MaxPerSpace, maxPerStream |-> MaxPerStream,
                        burst |-> Burst, ringSize |-> RingSize, self |-> Self, spaces |-> Spaces,
-                       fixPruneEmpty |-> FIX_PruneEmpty],
+                       fixPruneEmpty |-> FIX_PruneEmpty, prelude |-> Prelude],
+              init |-> init0,
               steps |-> hist]
 Emit == EmitWhen(done, Behaviour)
 =============================================================================
